@@ -404,7 +404,8 @@ MUTANTS['C15'] = {
     'jitter-range-check-loose': ([(IT, "if not (-1.0 <= jitter <= 1.0):", "if not (-1.0 <= jitter <= 1.5):")], 'detect'),
     'jitter-uses-two-draws': ([(IT, "cur_ret = cur - (cur * jitter * random.random())", "cur_ret = cur - (cur * jitter * (random.random() + random.random()))")], 'detect'),
     'start-zero-follows-one-uncapped': ([(IT, "        if cur > stop:\n            cur = stop\n    return", "        if cur > stop and cur != 1:\n            cur = stop\n    return")], 'detect'),
-    'revert-rounding-fix': ([(IT, "        if reach_stop and i == count and cur < stop:\n            count += 1", "        if False:\n            count += 1")], 'detect'),
+    'revert-rounding-fix': ([(IT, "        if reach_stop and i == count and cur < stop and cur * factor > cur:", "        if False:")], 'detect'),
+    'revert-no-growth-guard': ([(IT, "        if reach_stop and i == count and cur < stop and cur * factor > cur:", "        if reach_stop and i == count and cur < stop:")], 'detect'),
     'validation-after-first-yield': ([(IT, """    if stop < start:
         raise ValueError('expected stop >= start, not %r' % stop)""", """    if stop < start:
         yield start
